@@ -37,6 +37,7 @@ Inductive value :=
 | VInt (z : Z)
 | VStr (s : list N)
 | VStruct (vs : list value)
+| VVariant (tag : nat) (vs : list value)      (* an instance of an enum class: variant number and payload *)
 | VClo (f : fname) (ctx : value)
 | VRef (r : N).
 
@@ -57,7 +58,7 @@ Definition call_named (w : world) (f : fname) (vs : list value) (tr : trace) : c
   match f with
   | FInit _ => match vs with _ :: fields => CRet (VStruct fields) tr | [] => CFail FStuck end
   | FConcat => match vs with [VStr a; VStr b] => CRet (VStr (a ++ b)) tr | _ => CFail FStuck end
-  | FUser _ | FLam _ =>
+  | FUser _ | FLam _ | FPanic =>
       match w tr f vs with
       | Some v => CRet v ((f, vs) :: tr)
       | None => CFail (FAbort ((f, vs) :: tr))
@@ -125,6 +126,110 @@ Fixpoint bind_els (r : name -> option value) (els : list (option name)) (vs : li
   end.
 Definition bind_tuple (r : name -> option value) (els : list (option name)) (v : value) : option (name -> option value) :=
   match v with VStruct vs => bind_els r els vs | _ => None end.
+
+(* ------------------------------------------------------------------ patterns on these values *)
+(* The declarative meaning of a pattern: C01pat/Sem.v `pmatch`, on the values of this file (the first alternative
+   of an or-pattern that matches wins; bindings in the order written).  ProofsPat.v relates the two. *)
+Section SLists.
+  Variable pm : pat -> value -> option (list (name * value)).
+  Fixpoint smatch_list (ps : list pat) (vs : list value) : option (list (name * value)) :=
+    match ps with
+    | [] => Some []
+    | p :: t =>
+        match vs with
+        | [] => None
+        | v :: r =>
+            match pm p v with
+            | None => None
+            | Some b => match smatch_list t r with None => None | Some b' => Some (b ++ b') end
+            end
+        end
+    end.
+  Fixpoint smatch_els (vs : list value) (els : list (nat * pat)) : option (list (name * value)) :=
+    match els with
+    | [] => Some []
+    | el :: t =>
+        match nth_error vs (fst el) with
+        | None => None
+        | Some w =>
+            match pm (snd el) w with
+            | None => None
+            | Some b => match smatch_els vs t with None => None | Some b' => Some (b ++ b') end
+            end
+        end
+    end.
+  Fixpoint smatch_or (v : value) (ps : list pat) : option (list (name * value)) :=
+    match ps with
+    | [] => None
+    | p :: t => match pm p v with Some b => Some b | None => smatch_or v t end
+    end.
+End SLists.
+
+Fixpoint smatch (p : pat) (v : value) {struct p} : option (list (name * value)) :=
+  match p with
+  | PWild => Some []
+  | PVar x => Some [(x, v)]
+  | PTuple ps => match v with VStruct vs => smatch_list smatch ps vs | _ => None end
+  | PObject els => match v with VStruct vs => smatch_els smatch vs els | _ => None end
+  | PVariant tag ps =>
+      match v with
+      | VVariant t vs => if Nat.eqb t tag then smatch_list smatch ps vs else None
+      | _ => None
+      end
+  | POr ps => smatch_or smatch v ps
+  end.
+
+(* "v has the shape p expects" (C01pat/Corr.v shape_okb on these values): what the type checker guarantees of
+   scrutinee and pattern; a scrutinee of another shape is an ill-typed situation (FStuck) *)
+Fixpoint sshape (p : pat) (v : value) {struct p} : bool :=
+  match p with
+  | PWild | PVar _ => true
+  | PTuple ps =>
+      match v with
+      | VStruct vs =>
+          (fix go (l : list pat) (ws : list value) : bool :=
+             match l, ws with
+             | [], _ => true
+             | q :: t, w :: r => sshape q w && go t r
+             | _ :: _, [] => false
+             end) ps vs
+      | _ => false
+      end
+  | PObject els =>
+      match v with
+      | VStruct vs =>
+          forallb (fun el => match nth_error vs (fst el) with Some w => sshape (snd el) w | None => false end) els
+      | _ => false
+      end
+  | PVariant tag ps =>
+      match v with
+      | VVariant t vs =>
+          if Nat.eqb t tag then
+            (fix go (l : list pat) (ws : list value) : bool :=
+               match l, ws with
+               | [], [] => true
+               | q :: t, w :: r => sshape q w && go t r
+               | _, _ => false
+               end) ps vs
+          else true
+      | _ => false
+      end
+  | POr ps => forallb (fun q => sshape q v) ps
+  end.
+
+(* the value a match binds to x: the LAST binding of x (C01pat/Sem.v `lookup`) *)
+Fixpoint slookup (b : list (name * value)) (x : name) : option value :=
+  match b with
+  | [] => None
+  | (y, w) :: t => match slookup t x with Some w' => Some w' | None => if N.eqb x y then Some w else None end
+  end.
+
+(* the environment extended with the bindings of a match, in order (a later binding of a name wins) *)
+Fixpoint bind_all (r : name -> option value) (b : list (name * value)) : name -> option value :=
+  match b with
+  | [] => r
+  | (x, w) :: t => bind_all (upd r x (Some w)) t
+  end.
 
 (* the values of the captured variables, in the order given *)
 Fixpoint lookups (r : name -> option value) (xs : list name) : option (list value) :=
@@ -249,6 +354,23 @@ Section Sem.
         | o => o
         end
     | EBlock b => seval_blk r b tr
+    | EMatch e cs =>
+        match seval r e tr with
+        | SVal v tr1 => seval_arms r cs v tr1
+        | o => o
+        end
+    | EIfLet p _ e e1 e2 =>
+        (* condition first; the bindings are in scope in the first branch only *)
+        match seval r e tr with
+        | SVal v tr1 =>
+            if sshape p v then
+              match smatch p v with
+              | Some b => seval (bind_all r b) e1 tr1
+              | None => seval r e2 tr1
+              end
+            else SFail FStuck
+        | o => o
+        end
     | ELambda l caps _ _ =>
         (* a function value: the synthetic function of this lambda and the captured values (the body runs when the
            value is called: answered by the world here, see Lower.lambda_fn for the body) *)
@@ -270,6 +392,19 @@ Section Sem.
         | SFail f => LFail f
         end
     end
+  with seval_arms (r : name -> option value) (cs : arms) (v : value) (tr : trace) {struct cs} : sres :=
+    (* the arms in written order; the first whose pattern matches is taken; none: the checker demands exhaustive
+       matches, so that is an ill-typed situation *)
+    match cs with
+    | ANil => SFail FStuck
+    | ACons p _ body t =>
+        if sshape p v then
+          match smatch p v with
+          | Some b => seval (bind_all r b) body tr
+          | None => seval_arms r t v tr
+          end
+        else SFail FStuck
+    end
   with seval_blk (r : name -> option value) (b : blk) (tr : trace) {struct b} : sres :=
     match b with
     | BEndU => SVal (VInt 0) tr
@@ -286,6 +421,18 @@ Section Sem.
             | Some r' => seval_blk r' b tr1
             | None => SFail FStuck
             end
+        | o => o
+        end
+    | BLetP p _ e b =>
+        (* `let` patterns are irrefutable for the checker: no match is an ill-typed situation *)
+        match seval r e tr with
+        | SVal v tr1 =>
+            if sshape p v then
+              match smatch p v with
+              | Some bd => seval_blk (bind_all r bd) b tr1
+              | None => SFail FStuck
+              end
+            else SFail FStuck
         | o => o
         end
     | BExp e b =>
